@@ -102,7 +102,11 @@ CHECKS["C19"] = {
 
 CHECKS["C11"] = {'design_ref': 'DESIGN.md section 6 C11',
  'note': 'Trusted: as C16, plus tools/bep29.py. No axioms. Accept/reject theorems assume the input is a list '
-         'of bytes (bytes_okb). Partial: emitted-datagram clause not covered. Finding W1 (serialize with '
+         'of bytes (bytes_okb). Emitted-datagram clause: theorems at the connection tier (hypothesis '
+         'c11_config_ok: the configured initial sequence numbers / remote connection id are u16) and at the '
+         'dispatcher tier (hypothesis: random_u16 values and parsed datagram fields are u16); refuted at the '
+         'dispatcher tier: the connection id of a SYN-ACK is not checked against the id the SYN announced '
+         '(c11_disp_syn_ack_conn_id_unchecked_refuted). Finding W1 (serialize with '
          'SACK and close reason together wrote a malformed chain) was found by this check and is repaired in '
          '/repo 2f571a9; model, theorems and generators are for the repaired code.',
  'technique': 'Coq proof (induction over the extension chain; iff with a declarative packet grammar) + '
@@ -120,9 +124,18 @@ CHECKS["C11"] = {'design_ref': 'DESIGN.md section 6 C11',
          'for the literal statement). Model tied to the real code by structural enumeration of extension '
          'chains x every truncation, random byte strings and random headers (all combinations of SACK / '
          'close reason / buffer length); the extracted predicates c11_de_ok / c11_msg_ok / c11_ser_ok and an '
-         "independent python BEP-29 parser are evaluated on the implementation's own outputs. NOT covered "
-         "here: the clause 'every datagram the library emits carries version 1 and the connection id owed to "
-         "that direction' (connection-level; only the per-header serialiser is checked)."}
+         "independent python BEP-29 parser are evaluated on the implementation's own outputs. Emitted datagrams "
+         "(connection tier, Gallina model of VirtualSocket::poll, every state / event list, any peer, transport and "
+         "congestion controller): every datagram a poll emits carries the connection's send id (ST_SYN would carry the "
+         "receive id), is ST_DATA / ST_FIN / ST_STATE, has a payload exactly when it is ST_DATA, a header whose fields "
+         "are in range and whose SACK (if any) has the 64-bit length, so that serialize writes it with version 1 and "
+         "deserialize returns the same header (c11_emitted_ok_every_trace, c11_conn_types_ok_every_trace, "
+         "c11_packet_ok_on_the_wire); the extracted c11_emitted_ok / c11_conn_types_ok are evaluated on every datagram "
+         "of every implementation trace (component vsock_wire). Dispatcher tier (every op list): every ST_SYN / "
+         "ST_RESET the dispatcher emits is a well-formed 20-byte header with version 1; a ST_RESET goes to the address "
+         "of the SYN it refuses, carries its connection id and acknowledges its sequence number (component disp_wire: "
+         "the real parser accepts every datagram the real dispatcher sent). Refuted: the id announced by a SYN is not "
+         "compared with the id of the SYN-ACK that completes the connect."}
 
 CHECKS["C14"] = {'design_ref': 'DESIGN.md section 6 C14',
  'note': 'Trusted: as C16. No axioms. Header constants re-read from the compiled crate on every run. The '
